@@ -13,11 +13,11 @@ from vlib.core import Result
 
 ID = "C12"
 LEVEL = "exploration"
-RULE = ("Hypothesis-generated histories (<=15 ops) over A<-B with parameters x Number, l List (instantiate), d Dict(None, "
+RULE = ("Hypothesis-generated histories (<=15 ops) over A<-B<-C with parameters x Number, l List (instantiate), lr List(allow_refs; a constructor reference may be skipped), d Dict(None, "
         "instantiate), sh shared mutable default, c/cn constants, pi per_instance=False, s Selector, se empty Selector "
         "(check_on_set=False): instance creation (with keywords), instance/class/subclass sets (incl. re-assigning the "
         "identical default object), in-place mutation of values, instance- and class-level Parameter attribute edits "
-        "(bounds, doc, objects append/assign), bare reads creating per-instance copies; oracle = ownership model for values "
+        "(bounds, doc, objects append/assign), temporary update() contexts, bare reads creating per-instance copies; oracle = ownership model for values "
         "+ frame conditions for metadata after every op. Non-trivial = an instance is created between two class-level "
         "changes, or an in-place mutation / metadata edit follows the creation of a second instance; distinct = case hash.")
 ASSUMPTIONS = [
@@ -27,34 +27,45 @@ ASSUMPTIONS = [
 ]
 SIZES = {"quick": 1200, "thorough": 8000}
 
-VP = ["x", "l", "d", "sh", "c", "cn", "pi", "s", "se"]
-MUT = ["l", "sh", "c", "d"]
+VP = ["x", "l", "d", "sh", "c", "cn", "pi", "s", "se", "lr"]
+MUT = ["l", "sh", "c", "d", "lr"]
 ATTRS = ["bounds_x", "doc_x", "objs_append_s", "objs_assign_s", "objs_append_se", "bounds_pi", "doc_l", "step_x"]
 
 _i = st.integers(0, 7)
 _k = st.integers(0, 9)
+_c = st.sampled_from([0, 1, 1, 2, 2])        # A, B(A), C(B)
 
 
 def _ops():
     return st.one_of(
-        st.tuples(st.just("new"), st.integers(0, 1), st.sampled_from(["", "", "x", "l", "c", "s", "d"]), _k),
-        st.tuples(st.just("new"), st.integers(0, 1), st.just(""), _k),
+        st.tuples(st.just("new"), _c, st.sampled_from(["", "", "x", "l", "c", "s", "d", "lr_skip", "lr", "se"]), _k),
+        st.tuples(st.just("new"), _c, st.just(""), _k),
+        st.tuples(st.just("iupdctx"), _i, st.integers(0, len(VP) - 1), _k),
         st.tuples(st.just("iset"), _i, st.integers(0, len(VP) - 1), _k, st.booleans()),
         st.tuples(st.just("iset"), _i, st.integers(0, len(VP) - 1), _k, st.just(False)),
-        st.tuples(st.just("cset"), st.integers(0, 1), st.integers(0, len(VP) - 1), _k),
-        st.tuples(st.just("cset"), st.integers(0, 1), st.integers(0, len(VP) - 1), _k),
+        st.tuples(st.just("cset"), _c, st.integers(0, len(VP) - 1), _k),
+        st.tuples(st.just("cset"), _c, st.integers(0, len(VP) - 1), _k),
         st.tuples(st.just("imut"), _i, st.integers(0, len(MUT) - 1), _k),
-        st.tuples(st.just("cmut"), st.integers(0, 1), st.integers(0, len(MUT) - 1), _k),
+        st.tuples(st.just("cmut"), _c, st.integers(0, len(MUT) - 1), _k),
         st.tuples(st.just("iattr"), _i, st.integers(0, len(ATTRS) - 1), _k),
-        st.tuples(st.just("cattr"), st.integers(0, 1), st.integers(0, len(ATTRS) - 1), _k),
+        st.tuples(st.just("cattr"), _c, st.integers(0, len(ATTRS) - 1), _k),
         st.tuples(st.just("read"), _i, st.integers(0, len(VP) - 1)),
     )
 
 
 @st.composite
 def _case(draw):
-    return {"b_redeclares_x": draw(st.booleans()),
-            "ops": [list(o) for o in draw(st.lists(_ops(), min_size=2, max_size=15))]}
+    ops = [list(o) for o in draw(st.lists(_ops(), min_size=2, max_size=13))]
+    if draw(st.integers(0, 3)) == 0:
+        # order-dependent motif: an instance takes the class default object as its own value, a temporary update()
+        # runs over it, then the class default is reassigned (ops may be interleaved with the others)
+        n = draw(st.sampled_from([0, 3, 7]))        # x, sh, s
+        c = draw(_c)
+        motif = [["new", c, "", 0], ["iset", 7, n, 0, True], ["iupdctx", 7, n, draw(_k)], ["cset", draw(st.integers(0, c)), n, draw(_k)]]
+        pos = sorted(draw(st.lists(st.integers(0, len(ops)), min_size=4, max_size=4)))
+        for off, (q, m) in enumerate(zip(pos, motif)):
+            ops.insert(q + off, m)
+    return {"b_redeclares_x": draw(st.booleans()), "ops": ops}
 
 
 def strategy(tier):
@@ -80,6 +91,20 @@ def _meta(p):
     return out
 
 
+def _region_ctor_autoadd(case, v):
+    """KF-C12-1: a constructor keyword for the check_on_set=False Selector `se` whose value is not among the objects is
+    appended to the objects of the *class* Parameter (no instance-level Parameter exists during construction)."""
+    import re
+    m = re.match(r"after op(\d+):", v.detail)
+    if v.clause != "C12.metadata_leak" or not m:
+        return False
+    op = case["ops"][int(m.group(1))]
+    return op[0] == "new" and op[2] == "se" and "'se')" in v.detail and "'objects'" in v.detail
+
+
+REGIONS = {"ctor_keyword_autoadds_to_class_objects": _region_ctor_autoadd}
+
+
 def execute(case):
     res = Result()
     ns = {
@@ -92,16 +117,22 @@ def execute(case):
         "pi": param.Number(default=2, bounds=(0, 10), per_instance=False),
         "s": param.Selector(objects=[1, 2, 3]),
         "se": param.Selector(),
+        "lr": param.List(default=[7], allow_refs=True),
     }
     A = type("A", (param.Parameterized,), ns)
     B = type("B", (A,), {"x": param.Number(default=3)} if case["b_redeclares_x"] else {})
-    classes = [A, B]
+    C = type("C", (B,), {})
+    classes = [A, B, C]
+    src = type("Src", (param.Parameterized,), {"v": param.Number(default=0)})()
+
+    def _skip(v):
+        raise param.Skip
     # ---- value model --------------------------------------------------------
     cown = {(A, n): getattr(A, n) for n in VP}        # class-owned default objects
     if case["b_redeclares_x"]:
         cown[(B, "x")] = 3
     insts = []      # dict(obj, cls, own={p: obj}, mirror={p: content copy for instantiated values})
-    cmirror = {(A, "l"): [1, 2]}
+    cmirror = {(A, "l"): [1, 2], (A, "lr"): [7]}
 
     def cdefault(K, n):
         for k in K.__mro__:
@@ -144,14 +175,18 @@ def execute(case):
                     ok = got is want
                 if not ok:
                     res.fail("C12.class_value", f"after {tag}: {K.__name__}.{n} is {got!r}, model says {want!r}")
-            m = cmir(K, "l")
-            if m is not None and getattr(K, "l") != m:
-                res.fail("C12.class_default_mutated", f"after {tag}: {K.__name__}.l content {getattr(K, 'l')!r} "
-                                                      f"differs from the model {m!r}")
+            for ln in ("l", "lr"):
+                m = cmir(K, ln)
+                if m is not None and getattr(K, ln) != m:
+                    res.fail("C12.class_default_mutated", f"after {tag}: {K.__name__}.{ln} content {getattr(K, ln)!r} "
+                                                          f"differs from the model {m!r}")
         for idx, rec in enumerate(insts):
             o = rec["obj"]
             for n in VP:
                 got, want = getattr(o, n), expect(rec, n)
+                if n in rec.get("loose", ()) and (got is cdefault(rec["cls"], n) or (n in ("x", "pi", "s", "se") and
+                                                                                      got == cdefault(rec["cls"], n))):
+                    continue
                 if n in ("x", "pi", "s", "se"):
                     if got != want:
                         res.fail("C12.instance_value", f"after {tag}: inst{idx}:{rec['cls'].__name__}.{n} is {got!r}, "
@@ -187,7 +222,7 @@ def execute(case):
     def newval(n, k):
         if n in ("x", "pi"):
             return k
-        if n in ("l", "sh", "c", "cn"):
+        if n in ("l", "sh", "c", "cn", "lr"):
             return [k, k]
         if n == "d":
             return {"k": k}
@@ -207,20 +242,26 @@ def execute(case):
         if kind == "new":
             K = classes[op[1]]
             kw = {}
-            if op[2]:
-                kw[op[2]] = newval(op[2], op[3])
-            o = K(**kw)
+            if op[2] == "lr_skip":
+                # a reference that produces no value at construction (its function raises Skip): the keyword is never
+                # actually assigned, the instance must still get its private copy of the default
+                o = K(lr=param.bind(_skip, src.param.v))
+                res.label("ctor_reference_skipped")
+            else:
+                if op[2]:
+                    kw[op[2]] = newval(op[2], op[3])
+                o = K(**kw)
             rec = {"obj": o, "cls": K, "own": {}, "mirror": {}}
-            for n in ("l", "d"):
+            for n in ("l", "d", "lr"):
                 if n in kw:
                     rec["own"][n] = kw[n]
                 else:
                     dflt = cdefault(K, n)
-                    rec["mirror"][n] = copy.deepcopy(cmir(K, n) if n == "l" and cmir(K, n) is not None else dflt)
+                    rec["mirror"][n] = copy.deepcopy(cmir(K, n) if n in ("l", "lr") and cmir(K, n) is not None else dflt)
             for n in ("c", "cn"):
                 rec["own"][n] = kw.get(n, cdefault(K, n))
             for n in kw:
-                if n not in ("l", "d", "c", "cn"):
+                if n not in ("l", "d", "lr", "c", "cn"):
                     rec["own"][n] = kw[n]
             insts.append(rec)
             if n_cls_changes:
@@ -242,6 +283,7 @@ def execute(case):
                 continue
             rec["own"][n] = v
             rec["mirror"].pop(n, None)
+            rec.get("loose", set()).discard(n)
             if op[4]:
                 res.label("iset_identical_default")
             if n == "pi":
@@ -258,7 +300,7 @@ def execute(case):
                 res.dontcare += 1
                 continue
             cown[(K, n)] = v
-            if n == "l":
+            if n in ("l", "lr"):
                 cmirror[(K, n)] = list(v)
             n_cls_changes += 1
             if created_after_cls_change:
@@ -266,6 +308,32 @@ def execute(case):
                 res.label("instance_between_class_changes")
             # class-level operations: the statement claims isolation for instance-level changes only;
             # no metadata frame condition is asserted here (values are checked by the ownership model)
+        elif kind == "iupdctx":
+            # a temporary update: on exit the instance is back to exactly what it had (own value or following the class)
+            if not insts:
+                continue
+            idx = op[1] % len(insts)
+            rec = insts[idx]
+            n = VP[op[2]]
+            if n in ("c", "cn", "se"):
+                continue
+            try:
+                with rec["obj"].param.update(**{n: newval(n, op[3])}):
+                    pass
+            except ValueError:
+                res.dontcare += 1
+                continue
+            if n in rec["own"] and rec["own"][n] is cdefault(rec["cls"], n):
+                res.label("temporary_update_over_own_value_identical_to_default")
+            if n not in rec["own"] and n not in rec["mirror"]:
+                # restoring re-assigns the value it had; whether the instance owns it from now on or goes on following
+                # the class is not claimed either way
+                rec["own"][n] = cdefault(rec["cls"], n)
+                rec.setdefault("loose", set()).add(n)
+            if n == "pi":
+                frame(tag, before, lambda key: key[1] == "pi")
+            else:
+                frame(tag, before, lambda key: key == (idx, n))
         elif kind == "imut":
             if not insts:
                 continue
